@@ -117,3 +117,33 @@ Definition same_root (t : str) (rt : option path) (it : ditem) : bool :=
   end.
 Definition summary_of_root (t : str) (rt : option path) (l : list ditem) : dsummary :=
   drift_summary (filter (same_root t rt) l).
+
+(* ---------- cli/commands/status.rs run(): the report, the --only filter, the summaries ---------- *)
+(* (target, root) groups of a list of items, in order of first appearance (the code keeps them in a
+   BTreeMap: the order is not part of the property, the SET of groups and their counts are) *)
+Definition group_key := (str * option path)%type.
+Definition gk_eqb (a b : group_key) : bool :=
+  str_eqb (fst a) (fst b) &&
+  match snd a, snd b with
+  | Some x, Some y => path_eqb x y
+  | None, None => true
+  | _, _ => false
+  end.
+Fixpoint groups_of (seen : list group_key) (l : list ditem) : list group_key :=
+  match l with
+  | [] => []
+  | it :: r => let g := (i_target it, i_root it) in
+               if existsb (gk_eqb g) seen then groups_of seen r else g :: groups_of (g :: seen) r
+  end.
+Definition summary_by_root (l : list ditem) : list (group_key * dsummary) :=
+  map (fun g => (g, summary_of_root (fst g) (snd g) l)) (groups_of [] l).
+
+Record status_out := { so_drift : list ditem; so_summary : dsummary;
+                       so_by_root : list (group_key * dsummary); so_total : option dsummary }.
+
+(* filter_drift_by_kind, then drift_summary_by_root OF THE FILTERED LIST *)
+Definition status_cmd (only : list dkind) (f : fs) (universe : list path) (roots : list root) (D : list dfile) : status_out :=
+  let all := report f universe roots D in
+  let shown := filter_only only all in
+  {| so_drift := shown; so_summary := drift_summary shown; so_by_root := summary_by_root shown;
+     so_total := match only with [] => None | _ => Some (drift_summary all) end |}.
